@@ -182,8 +182,7 @@ def main():
         "not_applicable": na,
         "notes": "All checks are static: nothing in /repo is executed. exit 0 = every obligation PROVEN/REVIEWED/KNOWN-FINDING; exit 1 + VIOLATION line = an obligation failed; exit 2 = checker could not decide (load/type error, unresolved anchor, control misbehaved). Known findings: known_findings.json; reviewed sites: reviewed.json.",
     }
-    if not na:
-        del m["not_applicable"]
+    # an empty list is kept: every property is claimed (the clauses that are not decided are listed per check)
     open(os.path.join(VERIF, "MANIFEST.json"), "w").write(json.dumps(m, indent=1) + "\n")
     print("MANIFEST.json:", len(checks), "checks,", len(na), "not_applicable")
 
